@@ -273,6 +273,7 @@ func runC06(ctx *h.Ctx) int {
 		k.Count("clashes_rejected", 1)
 		k.Nontrivial("clash", pick < len(lm.Texts), at)
 	})
+	rejectGuard(ctx, 0.4)
 	return ctx.Finish(
 		"files of several scripts / inline map scripts whose commands carry inline strings (plain, typed, format()) and moves() in every position (straight-line, control constructs, AutoVar conditions and switch operands, poryswitch cases) drawn from a small pool so repeats are frequent. Oracle = independent model of the documented rule (per-owner numbering in order of first appearance, file-wide sharing by (content,type) / expanded step list): every argument slot holds the predicted label; each predicted label is defined once, local, with exactly the predicted content; no other _Text_/_Movement_ label exists. Clash workload: a user text/movement named like a generated label must be rejected. distinct = distinct multiset signature of hoisted items (type, length, uses)",
 		ctx.N(500, 5000),
